@@ -2943,6 +2943,10 @@ HPgetdiskblock(filerec_t *file_rec, int32 block_size, int moveto)
     if (file_rec == NULL || block_size < 0)
         HGOTO_ERROR(DFE_ARGS, FAIL);
 
+    /* file offsets are 32-bit signed: refuse a block that would end beyond what they can hold */
+    if (block_size > INT32_MAX - file_rec->f_end_off)
+        HGOTO_ERROR(DFE_BADLEN, FAIL);
+
 #ifdef DISKBLOCK_DEBUG
     block_size += (DISKBLOCK_HSIZE + DISKBLOCK_TSIZE);
     /* get the offset of the allocated block */
